@@ -377,9 +377,15 @@ def check_find(p, caller, past, pattern, pclass, scope_path=None, block_scope=No
     # --- every sure match must be reported ---------------------------------
     for c in ref:
         if c["doc"] and c["must"] and c["key"] not in seen:
+            extra = {}
+            if is_stmt:
+                _, apath, attr, k0 = c["key"]
+                stmts = getattr(R.resolve(ir, apath), attr)
+                if _hole_ambiguity(past, stmts[k0:]):
+                    extra = {"mechanism": "stmt_hole_lookahead_no_backtracking"}
             V("missing_match", _position_of(ir, c["key"]),
               f"{pattern!r}: position {c['key']} matches but was not returned "
-              f"({len(real)} result(s)):\n{_show(ir, c['key'])}")
+              f"({len(real)} result(s)):\n{_show(ir, c['key'])}", **extra)
 
     # --- program order -------------------------------------------------------
     order = [byk[(k[:4] if k[0] == "B" else k)]["i"] for k in rkeys
@@ -418,6 +424,33 @@ def check_find(p, caller, past, pattern, pclass, scope_path=None, block_scope=No
                     V("wrong_exception", "-", f"find({pat_n!r}) raised {g1[1]}: {g1[2]} instead "
                       f"of SchedulingError", select="out_of_range", exc=g1[1])
     return viol, info
+
+
+def _hole_ambiguity(pats, stmts):
+    """In the alignment `one hole = one statement`: is there a statement hole
+    whose statement also matches the pattern element that follows the hole?
+    (exo then ends the hole before that statement and never reconsiders)"""
+    from ..refmatch import m_stmt
+
+    if len(pats) == 1 and pats[0]["k"] == "shole":
+        return False
+    for t, (pt, st) in enumerate(zip(pats, stmts)):
+        k = pt["k"]
+        if k == "shole":
+            if t + 1 < len(pats) and pats[t + 1]["k"] != "shole":
+                try:
+                    if m_stmt(pats[t + 1], st, True):
+                        return True
+                except Exception:
+                    pass
+        elif k == "for" and hasattr(st, "body"):
+            if _hole_ambiguity(pt["body"], st.body):
+                return True
+        elif k == "if" and hasattr(st, "orelse"):
+            if _hole_ambiguity(pt["body"], st.body) or (
+                    pt["orelse"] and _hole_ambiguity(pt["orelse"], st.orelse)):
+                return True
+    return False
 
 
 def _coarse_class(pclass):
@@ -978,6 +1011,8 @@ def process_program(W, src, mod, rng, budget_patterns=60, procname="main"):
     args = [str(a.name) for a in ir.args]
     for nm in rng.sample(sorted(set(allocs + args + ["qq"])), min(3, len(set(allocs + args + ["qq"])))):
         _alloc_or_arg_case(W, p, caller, src, procname, nm, rng, shape)
+        if rng.random() < 0.5:
+            _alloc_or_arg_case(W, p, caller, src, procname, nm, rng, shape, n=rng.randrange(0, 3))
 
     # ---- find: derived patterns ---------------------------------------------
     pos = R.positions(ir)
@@ -1102,49 +1137,56 @@ def _shorthand_equiv(W, p, caller, src, procname, past, pattern, pclass):
                                  f"-> {kb}"})
 
 
-def _alloc_or_arg_case(W, p, caller, src, procname, nm, rng, shape):
-    """find_alloc_or_arg(name): the argument of that name, else the first
-    allocation `name : _`, else SchedulingError"""
+def _alloc_or_arg_case(W, p, caller, src, procname, nm, rng, shape, n=None):
+    """find_alloc_or_arg(name [#n]): the argument of that name, else the n-th
+    (default first) allocation `name : _`, else SchedulingError"""
     from .. import refmatch as R
 
     ir = p.INTERNAL_proc()
     W.stat("evaluations")
     W.stat("pairs")
     W.stat("pat.short_alloc_or_arg")
-    got = _real_find(p, caller, nm, "find_alloc_or_arg")
+    text = nm if n is None else f"{nm} #{n}"
+    got = _real_find(p, caller, text, "find_alloc_or_arg")
     argi = [i for i, a in enumerate(ir.args) if str(a.name) == nm]
     past = [{"k": "alloc", "name": nm, "ty": None, "sizes": []}]
     ref = [c for c in R.ref_find(ir, past) if c["must"]]
+    want = 0 if n is None else n
     bad = None
     if argi:
         if got[0] != "ok":
-            bad = ("missing_match", f"find_alloc_or_arg({nm!r}) failed: {got[1:]}")
+            bad = ("missing_match", f"find_alloc_or_arg({text!r}) failed: {got[1:]}")
         else:
             c = got[1][0]
             if type(c).__name__ != "ArgCursor" or c._impl._node is not ir.args[argi[0]]:
-                bad = ("spurious_match", f"find_alloc_or_arg({nm!r}) did not return the "
+                bad = ("spurious_match", f"find_alloc_or_arg({text!r}) did not return the "
                        f"argument cursor: {type(c).__name__}")
         W.stat("pairs_with_real_match")
-    elif ref:
+    elif want < len(ref):
         if got[0] != "ok":
-            bad = ("missing_match", f"find_alloc_or_arg({nm!r}) failed: {got[1:]}")
-        elif key_of(got[1][0])[:4] != ref[0]["key"]:
-            bad = ("count_select", f"find_alloc_or_arg({nm!r}) returned {key_of(got[1][0])}, "
-                   f"first allocation is {ref[0]['key']}")
+            bad = ("missing_match", f"find_alloc_or_arg({text!r}) failed: {got[1:]}")
+        elif key_of(got[1][0])[:4] != ref[want]["key"]:
+            bad = ("count_select", f"find_alloc_or_arg({text!r}) returned {key_of(got[1][0])}, "
+                   f"allocation number {want} is {ref[want]['key']}")
         W.stat("pairs_with_real_match")
         W.stat("pairs_with_sure_match")
+        if n is not None:
+            W.stat("select_checks")
     else:
         if got[0] == "ok":
-            bad = ("no_raise", f"find_alloc_or_arg({nm!r}) returned {key_of(got[1][0])} but "
-                   f"there is no such argument or allocation")
+            bad = ("no_raise", f"find_alloc_or_arg({text!r}) returned {key_of(got[1][0])} but "
+                   f"there are only {len(ref)} such allocations and no such argument")
         elif got[0] == "exc":
-            bad = ("wrong_exception", f"find_alloc_or_arg({nm!r}) raised {got[1]}: {got[2]}")
+            bad = ("wrong_exception", f"find_alloc_or_arg({text!r}) raised {got[1]}: {got[2]}")
         W.stat("pairs_no_match")
         W.stat("pairs_sure_no_match")
+        if n is not None:
+            W.stat("select_checks")
+            W.stat("select_out_of_range")
     if bad:
         sig = {"monitor": "find", "kind": bad[0], "pattern_class": "short_alloc_or_arg",
                "position": "-", "scope": "proc"}
-        W.report(sig, {"kind": "alloc_or_arg", "src": src, "proc": procname, "name": nm,
+        W.report(sig, {"kind": "alloc_or_arg", "src": src, "proc": procname, "name": nm, "n": n,
                        "sig": sig, "detail": bad[1]})
 
 
@@ -1223,6 +1265,31 @@ def minimise_find(case, scratch, deadline):
 # shard / finish / replay
 
 
+def _run_seed_case(W, case, mod, rng):
+    p = getattr(mod, case["proc"])
+    caller = _mk_caller(mod)
+    kind = case.get("kind")
+    if kind == "find":
+        sp = tuple(tuple(x) for x in case["scope_path"]) if case.get("scope_path") else None
+        bs = case.get("block_scope")
+        if bs:
+            bs = (tuple(tuple(x) for x in bs[0]), bs[1], bs[2], bs[3])
+        es = tuple(tuple(x) for x in case["expr_scope"]) if case.get("expr_scope") else None
+        _find_case(W, p, caller, case["src"], case["proc"], case["past"], case["pattern"],
+                   case["pclass"], scope_path=sp, block_scope=bs, api=case.get("api"), rng=rng,
+                   shape="seed", try_select=False, expr_scope=es)
+    elif kind == "equiv":
+        _shorthand_equiv(W, p, caller, case["src"], case["proc"], case["past"],
+                         case["pattern"], case["pclass"])
+    elif kind == "alloc_or_arg":
+        _alloc_or_arg_case(W, p, caller, case["src"], case["proc"], case["name"], rng, "seed",
+                           case.get("n"))
+    elif kind == "nav":
+        for v in nav_check(p, rng, max_slices=400)[0]:
+            W.report(v["sig"], {"kind": "nav", "src": case["src"], "proc": case["proc"],
+                                "sig": v["sig"], "detail": v["detail"]})
+
+
 def shard(ctx):
     from .. import c16_progs as G
 
@@ -1246,18 +1313,26 @@ def shard(ctx):
             G.unload_module(mod)
 
     if ctx.shard == 0:
-        for k, src in enumerate(G.CORPUS):
-            run(src, f"c{k}")
-            nprog += 1
+        # committed witnesses: re-judged exactly, so that each mechanism they stand
+        # for fires with its signature in every run, whatever the random stream does
         for f in sorted(common.SEEDS.glob("C16_*.json")):
             try:
                 d = json.loads(f.read_text())
                 case = d.get("case", d)
-                if case.get("src") and case.get("kind") in ("find", "equiv"):
-                    run(case["src"], "seed")
-                    ctx.stat("seed_programs")
+                mod = G.load_module(case["src"], ctx.scratch, "seed")
             except Exception:
                 ctx.stat("seed_unreadable")
+                continue
+            try:
+                _run_seed_case(W, case, mod, rng)
+                ctx.stat("seed_cases")
+            except Exception:
+                ctx.stat("seed_failed")
+            finally:
+                G.unload_module(mod)
+        for k, src in enumerate(G.CORPUS):
+            run(src, f"c{k}")
+            nprog += 1
     while nprog < maxp and not ctx.out_of_time():
         size = rng.choice([0, 1, 1, 2, 2, 3])
         src = G.gen_program(rng, size)
@@ -1363,7 +1438,7 @@ def replay(case):
 
             W = _Work(None)
             _alloc_or_arg_case(W, getattr(mod, case["proc"]), _mk_caller(mod), case["src"],
-                               case["proc"], case["name"], random.Random(0), "")
+                               case["proc"], case["name"], random.Random(0), "", case.get("n"))
             hit = [c for s, c in W.viol if s == case["sig"]]
             r = {"reproduced": bool(hit), "sig": case["sig"],
                  "detail": hit[0]["detail"] if hit else "not reproduced"}
